@@ -624,6 +624,11 @@ send_qp(const char *buf, const off_t len)
 	cstring boundary;
 	int multipart;		/* set to one if this is a multipart message */
 
+	assert(len >= 0);
+
+	if (len <= 0)
+		return;
+
 	unsigned int recodeflag = need_recode(buf, len);
 
 	off_t off = qp_header(buf, len, &boundary, &multipart, (recodeflag & recode_qp_body));
